@@ -58,6 +58,8 @@ class Pi(schemes.interface.inverted_index_sse.InvertedIndexSSE):
 
         T_list = [[] for _ in range(t + 1)]  # t+1 empty lists T0, T1, ... , Tt
         S = []
+        # |DB(w)| can be as large as 2^t, which needs t + 1 bits
+        size_len = math.ceil((t + 1) / 8)
 
         for keyword in padded_database:
             ni = len(padded_database[keyword])
@@ -74,8 +76,7 @@ class Pi(schemes.interface.inverted_index_sse.InvertedIndexSSE):
             cipher_list = [self.config.ske.Encrypt(Ki, identifier) for identifier in padded_database[keyword]]
             di = b"".join(cipher_list)
 
-            # math.ceil(t / 8) --> max_bytes represent |DB(w)|
-            ni_prime = self.config.ske.Encrypt(Ki_prime, int_to_bytes(ni, math.ceil(t / 8)))
+            ni_prime = self.config.ske.Encrypt(Ki_prime, int_to_bytes(ni, size_len))
             T_list[pi].append((li, di))
             S.append((li_prime, ni_prime))
 
@@ -83,12 +84,15 @@ class Pi(schemes.interface.inverted_index_sse.InvertedIndexSSE):
         for i in range(t + 1):
             d_len = (2 ** i) * len(self.config.ske.Encrypt(b"\x00" * self.config.param_k_prime,
                                                            b"\x00" * self.config.param_identifier_size))
+            # level i holds the lists with 2^(i-1) < |DB(w)| <= 2^i, there are fewer than 2^(t-i+1) of them
             T_list[i].extend(
-                ((os.urandom(self.config.param_l), os.urandom(d_len)) for _ in range((2 ** (t - i)) - len(T_list[i]))))
+                ((os.urandom(self.config.param_l), os.urandom(d_len))
+                 for _ in range((2 ** min(t, t - i + 1)) - len(T_list[i]))))
 
         # padding list S to N elements
+        ni_prime_len = len(self.config.ske.Encrypt(b"\x00" * self.config.param_k_prime, b"\x00" * size_len))
         S.extend(
-            ((os.urandom(self.config.param_l_prime), os.urandom(math.ceil(t / 8)))
+            ((os.urandom(self.config.param_l_prime), os.urandom(ni_prime_len))  # as long as a real entry
              for _ in range(N - len(S)))
         )
 
